@@ -139,18 +139,18 @@ func newParser(data string, pos int, opt uint64) *Parser {
 
 	/* validate json if needed */
 	if (opt&(1<<_F_validate_string)) != 0 && !utf8.ValidateString(data) {
+		/* the corrected text becomes the source: it must stay intact (raw values are re-read
+		 * from it), so it is not the buffer the native parser unescapes strings in */
 		dbuf := utf8.CorrectWith(nil, rt.Str2Mem(data[pos:]), "\ufffd")
-		dbuf = append(dbuf, padding...)
-		p.Json = rt.Mem2Str(dbuf[:len(dbuf)-len(padding)])
+		data, pos = rt.Mem2Str(dbuf), 0
 		p.Utf8Inv = true
-		p.start = uintptr((*rt.GoString)(unsafe.Pointer(&p.Json)).Ptr)
-	} else {
-		p.Json = data[pos:]
-		// TODO: prevent too large JSON
-		p.padded = append(p.padded, data[pos:]...)
-		p.padded = append(p.padded, padding...)
-		p.start = uintptr((*rt.GoSlice)(unsafe.Pointer(&p.padded)).Ptr)
 	}
+
+	p.Json = data[pos:]
+	// TODO: prevent too large JSON
+	p.padded = append(p.padded, data[pos:]...)
+	p.padded = append(p.padded, padding...)
+	p.start = uintptr((*rt.GoSlice)(unsafe.Pointer(&p.padded)).Ptr)
 
 	p.cur = p.start
 	p.end = p.cur + uintptr(len(p.Json))
@@ -164,11 +164,7 @@ func (p *Parser) Pos() int {
 }
 
 func (p *Parser) JsonBytes() []byte {
-	if p.Utf8Inv {
-		return (rt.Str2Mem(p.Json))
-	} else {
-		return p.padded
-	}
+	return p.padded
 }
 
 var nodeType = rt.UnpackType(reflect.TypeOf(node{}))
